@@ -122,7 +122,7 @@ func (p c16) Gen(seed uint64, enum int, tier string) json.RawMessage {
 	}
 	r := NewRNG(seed)
 	s.Query = c16Queries[r.Intn(len(c16Queries))]
-	s.Entry = []string{"do", "plan"}[r.Intn(2)]
+	s.Entry = []string{"do", "plan", "cache"}[r.Intn(3)]
 	s.CtxKind = append(c16CtxKinds, "none")[r.Intn(5)]
 	switch r.Intn(4) {
 	case 1:
@@ -279,7 +279,15 @@ func (c16) Run(t TestingT, scn json.RawMessage, tape *Tape) *Outcome {
 			}
 			s.Gate("c1", "client:call", "")
 			var res *graphql.Result
-			if sc.Entry == "plan" {
+			if sc.Entry == "cache" {
+				cache := graphql.NewPlanCache(graphql.PlanCacheOptions{Normalize: true})
+				pr := cache.Get(&w.Schema, sc.Query, "")
+				if pr.Plan == nil {
+					tc.Out["r"] = "cache error"
+					return
+				}
+				res = graphql.ExecutePlan(pr.Plan, graphql.ExecuteParams{Schema: w.Schema, Args: mergeArgs(vars, pr.SynthArgs), Context: rctx})
+			} else if sc.Entry == "plan" {
 				doc, err := parseDoc(sc.Query)
 				if err != nil {
 					tc.Out["r"] = "parse error"
